@@ -457,7 +457,7 @@ void shrink(const Plan& p, std::vector<Plan>& out) {
   }
 }
 
-const sim::Scenario kScenario = {"C14", "invalid-calls", "asan", 30000, 600000, generate, execute, op_name, shrink, nullptr};
+const sim::Scenario kScenario = {"C14", "invalid-calls", "asan", 250000, 5000000, generate, execute, op_name, shrink, nullptr};
 sim::Registrar reg(kScenario);
 
 const char* const kAssumptions[] = {
